@@ -1349,5 +1349,298 @@ theorem close_requests {fx : Fixes} (hfx2 : fx.chainRestore = true) {t t' : Tree
           Bool.false_eq_true, if_false]
         exact finish t'' rfl rfl (chain_of (fun h => absurd h hfc))
 
+
+/-! ### `take_focus` in `Requests` form: a restore is requested, or nothing the specification reads has changed -/
+
+/-- What the composition reads of a window (`WinFlush.view`). -/
+def vw (w : Win) : Bool × Bool × Rect × List Nat := (w.isVisible, w.freed, w.rect, w.children)
+
+/-- Same composition-relevant fields, same root record. -/
+def SameVW (t t' : Tree) : Prop := t'.root = t.root ∧ ∀ i : Nat, (t'.wins[i]?).map vw = (t.wins[i]?).map vw
+
+theorem sameVW_refl (t : Tree) : SameVW t t := ⟨rfl, fun _ => rfl⟩
+theorem sameVW_trans {a b c : Tree} (h1 : SameVW a b) (h2 : SameVW b c) : SameVW a c :=
+  ⟨h2.1.trans h1.1, fun i => (h2.2 i).trans (h1.2 i)⟩
+
+theorem sameVW_set {t : Tree} {i : Nat} {w w' : Win} (hw : t.wins[i]? = some w) (hs : vw w' = vw w) :
+    SameVW t (WinTree.set t i w') := by
+  refine ⟨rfl, fun j => ?_⟩
+  simp only [WinTree.set, Array.getElem?_setIfInBounds]
+  by_cases hij : i = j
+  · subst hij
+    have hi : i < t.wins.size := (Array.getElem?_eq_some_iff.mp hw).1
+    rw [hw]; simp [hi, hs]
+  · simp [hij]
+
+theorem focusLostSelf_vw {t : Tree} {win : Nat} {evs : List Event} {r : Tree × List Event}
+    (h : focusLostSelf t win evs = .ok r) : SameVW t r.1 := by
+  simp only [focusLostSelf, bind_ok] at h
+  obtain ⟨w, hg, h⟩ := h
+  split at h
+  · simp only [pure_ok] at h; subst h; exact sameVW_set (get_ok.mp hg).1 rfl
+  · simp only [pure_ok] at h; subst h; exact sameVW_refl _
+
+theorem focusLost_vw : ∀ (fuel : Nat) (t : Tree) (win : Nat) (r : Tree × List Event),
+    focusLost fuel t win = .ok r → SameVW t r.1 := by
+  intro fuel
+  induction fuel with
+  | zero => intro t win r h; simp [focusLost] at h
+  | succ n ih =>
+    intro t win r h
+    simp only [focusLost, bind_ok] at h
+    obtain ⟨r1, h1, h2⟩ := h
+    have hs1 : SameVW t r1.1 := by
+      simp only [focusLostChild, bind_ok] at h1
+      obtain ⟨w, _, h1⟩ := h1
+      split at h1
+      · simp only [pure_ok] at h1; subst h1; exact sameVW_refl _
+      · simp only [bind_ok, pure_ok] at h1
+        obtain ⟨r0, h0, w', _, h1⟩ := h1
+        subst h1
+        exact ih _ _ r0 h0
+    exact sameVW_trans hs1 (focusLostSelf_vw h2)
+
+theorem gainLoseOld_vw {fx : Fixes} {t : Tree} {win : Nat} {child : Option Nat} {r : Tree × List Event}
+    (h : gainLoseOld fx t win child = .ok r) : SameVW t r.1 := by
+  simp only [gainLoseOld, bind_ok] at h
+  obtain ⟨w, _, h⟩ := h
+  split at h
+  · simp only [pure_ok] at h; subst h; exact sameVW_refl _
+  · split at h
+    · simp only [bind_ok, pure_ok] at h
+      obtain ⟨r0, h0, w', _, h⟩ := h
+      subst h
+      exact focusLost_vw _ _ _ r0 h0
+    · simp only [pure_ok] at h; subst h; exact sameVW_refl _
+
+theorem gainSelfOut_vw {fx : Fixes} {t : Tree} {win : Nat} {child : Option Nat} {evs : List Event}
+    {r : Tree × List Event} (h : gainSelfOut fx t win child evs = .ok r) : SameVW t r.1 := by
+  simp only [gainSelfOut, bind_ok] at h
+  obtain ⟨w, hg, h⟩ := h
+  split at h
+  · simp only [pure_ok] at h; subst h; exact sameVW_set (get_ok.mp hg).1 rfl
+  · simp only [pure_ok] at h; subst h; exact sameVW_refl _
+
+theorem gainSelfIn_vw {t : Tree} {win : Nat} {child : Option Nat} {evs : List Event}
+    {r : Tree × List Event} (h : gainSelfIn t win child evs = .ok r) : SameVW t r.1 := by
+  simp only [gainSelfIn, bind_ok] at h
+  obtain ⟨w, hg, h⟩ := h
+  split at h
+  · simp only [pure_ok] at h; subst h; exact sameVW_set (get_ok.mp hg).1 rfl
+  · simp only [pure_ok] at h; subst h; exact sameVW_set (get_ok.mp hg).1 rfl
+
+/-- The window part of `SameVW`, through a whole `_focus_gained` (which may write the root record). -/
+theorem focusGained_vww (fx : Fixes) : ∀ (fuel : Nat) (t : Tree) (win : Nat) (child : Option Nat)
+    (r : Tree × List Event), focusGained fx fuel t win child = .ok r →
+    ∀ i : Nat, (r.1.wins[i]?).map vw = (t.wins[i]?).map vw := by
+  intro fuel
+  induction fuel with
+  | zero => intro t win child r h; simp [focusGained] at h
+  | succ n ih =>
+    intro t win child r h i
+    simp only [focusGained, bind_ok] at h
+    obtain ⟨r1, h1, r2, h2, r3, h3, h4⟩ := h
+    have hs2 : SameVW t r2.1 := sameVW_trans (gainLoseOld_vw h1) (gainSelfOut_vw h2)
+    have hs3 : (r3.1.wins[i]?).map vw = (r2.1.wins[i]?).map vw := by
+      simp only [gainClimb, bind_ok] at h3
+      obtain ⟨w, _, h3⟩ := h3
+      split at h3
+      · split at h3
+        · exact ih _ _ _ _ h3 i
+        · simp only [pure_ok] at h3; subst h3; rfl
+      · simp only [bind_ok, pure_ok] at h3
+        obtain ⟨t', ht', h3⟩ := h3
+        subst h3
+        unfold requestRestoreOf at ht'
+        simp only [bind_ok, pure_ok] at ht'
+        obtain ⟨_, _, ht'⟩ := ht'
+        subst ht'; rfl
+    rw [(gainSelfIn_vw h4).2 i, hs3, hs2.2 i]
+
+
+theorem onChain_parent {t : Tree} (h : wfB t = true) {x p : Nat} {w : Win} (ho : OnChain t x) (hw : Live t x w)
+    (hp : w.parent = some p) : OnChain t p ∧ w.isVisible = true := by
+  cases ho with
+  | root =>
+    obtain ⟨r, hr, _, hrp⟩ := wf_root h
+    rw [live_unique hw hr] at hp; rw [hrp] at hp; cases hp
+  | step hop hpw hfc =>
+    obtain ⟨cw, hcw, hcp, hcv⟩ := wf_focused h hpw hfc
+    have := live_unique hcw hw; subst this
+    rw [hcp] at hp; cases hp
+    exact ⟨hop, hcv⟩
+
+theorem onChain_up {t : Tree} (h : wfB t = true) {z a : Nat} (ha : Anc t z a) (ho : OnChain t z) : OnChain t a := by
+  induction ha with
+  | refl => exact ho
+  | step hw hp _ ih => exact ih (onChain_parent h ho hw hp).1
+
+theorem fcChain_anc {t : Tree} (h : wfB t = true) {g z : Nat} (hc : FcChain t g z) : Anc t z g := by
+  induction hc with
+  | here => exact .refl _
+  | down hw hfc _ ih =>
+    obtain ⟨cw, hcw, hcp, _⟩ := wf_focused h hw hfc
+    exact anc_snoc ih hcw hcp
+
+/-- Rewriting a window that is not on the focus chain of `t`, in a store that still has that chain. -/
+theorem chainSame_set_off {t ta : Tree} (hwf : wfB t = true) (hcs : ChainSame t ta) {x : Nat} {w w' : Win}
+    (hoff : ¬ OnChain t x) (hw : Live ta x w) (hf : w'.freed = false) : ChainSame t (WinTree.set ta x w') :=
+  chainSame_trans hcs (chainSame_set hw hf (.inl (fun ho => hoff (onChain_kept_rev hwf (chainSame_kept hcs 0) ho))))
+
+/-- `_focus_lost` on a branch that is not part of the focus chain from the root leaves that chain alone. -/
+theorem focusLost_chainSame {t : Tree} (hwf : wfB t = true) : ∀ (fuel : Nat) (g : Nat) (r : Tree × List Event),
+    focusLost fuel t g = .ok r → (∀ z, FcChain t g z → ¬ OnChain t z) → ChainSame t r.1 ∧ r.1.root = t.root := by
+  intro fuel
+  induction fuel with
+  | zero => intro g r h; simp [focusLost] at h
+  | succ n ih =>
+    intro g r h hoff
+    simp only [focusLost, bind_ok] at h
+    obtain ⟨r1, h1, h2⟩ := h
+    have h1' : ChainSame t r1.1 ∧ r1.1.root = t.root := by
+      simp only [focusLostChild, bind_ok] at h1
+      obtain ⟨w, hg, h1⟩ := h1
+      split at h1
+      · simp only [pure_ok] at h1; subst h1; exact ⟨chainSame_refl _, rfl⟩
+      · next c hfc =>
+        simp only [bind_ok, pure_ok] at h1
+        obtain ⟨r0, h0, w', _, h1⟩ := h1
+        subst h1
+        exact ih c r0 h0 (fun z hz => hoff z (.down (get_ok.mp hg) hfc hz))
+    simp only [focusLostSelf, bind_ok] at h2
+    obtain ⟨w, hg, h2⟩ := h2
+    split at h2
+    · simp only [pure_ok] at h2; subst h2
+      exact ⟨chainSame_set_off hwf h1'.1 (hoff g (.here g)) (get_ok.mp hg) (by exact (get_ok.mp hg).2), h1'.2⟩
+    · simp only [pure_ok] at h2; subst h2; exact h1'
+
+/-- Once the climb of `_focus_gained` is on the focus chain it reaches the root window and requests the restore. -/
+theorem gained_on_chain_requests (fx : Fixes) : ∀ (fuel : Nat) (t : Tree) (x : Nat) (child : Option Nat)
+    (r : Tree × List Event), focusGained fx fuel t x child = .ok r → wfB t = true → OnChain t x →
+    r.1.root.needsRestore = true ∧ r.1.root.needsLater = true := by
+  intro fuel
+  induction fuel with
+  | zero => intro t x child r h; simp [focusGained] at h
+  | succ n ih =>
+    intro t x child r h hwf hon
+    simp only [focusGained, bind_ok] at h
+    obtain ⟨r1, h1, r2, h2, r3, h3, h4⟩ := h
+    have s12 : SameLK t r2.1 := sameLK_trans (gainLoseOld_lk h1) (gainSelfOut_lk h2)
+    have hwf2 := gainSelfOut_wf (gainLoseOld_wf hwf h1) h2
+    have hon2 := onChain_lk s12 hon
+    have hr3 : r3.1.root.needsRestore = true ∧ r3.1.root.needsLater = true := by
+      simp only [gainClimb, bind_ok] at h3
+      obtain ⟨w, hg, h3⟩ := h3
+      have hw := get_ok.mp hg
+      split at h3
+      · next p hp =>
+        obtain ⟨hop, hv⟩ := onChain_parent hwf2 hon2 hw hp
+        simp only [hv, if_true] at h3
+        exact ih _ _ _ _ h3 hwf2 hop
+      · simp only [bind_ok, pure_ok] at h3
+        obtain ⟨t', ht', h3⟩ := h3
+        subst h3
+        unfold requestRestoreOf at ht'
+        simp only [bind_ok, pure_ok] at ht'
+        obtain ⟨_, _, ht'⟩ := ht'
+        subst ht'
+        exact ⟨rfl, rfl⟩
+    rw [(gainSelfIn_pv h4).1]; exact hr3
+
+/-- `_focus_gained`: a restore is requested, or the focus chain from the root and the root record are untouched. -/
+theorem gained_requests_or_same (fx : Fixes) : ∀ (fuel : Nat) (t : Tree) (x : Nat) (child : Option Nat)
+    (r : Tree × List Event), focusGained fx fuel t x child = .ok r → wfB t = true →
+    (r.1.root.needsRestore = true ∧ r.1.root.needsLater = true) ∨ (ChainSame t r.1 ∧ r.1.root = t.root) := by
+  intro fuel
+  induction fuel with
+  | zero => intro t x child r h; simp [focusGained] at h
+  | succ n ih =>
+    intro t x child r h hwf
+    by_cases hon : OnChain t x
+    · exact .inl (gained_on_chain_requests fx _ t x child r h hwf hon)
+    · simp only [focusGained, bind_ok] at h
+      obtain ⟨r1, h1, r2, h2, r3, h3, h4⟩ := h
+      have hwf1 := gainLoseOld_wf hwf h1
+      have hwf2 := gainSelfOut_wf hwf1 h2
+      -- the old branch below `x` is off the chain
+      have c1 : ChainSame t r1.1 ∧ r1.1.root = t.root := by
+        simp only [gainLoseOld, bind_ok] at h1
+        obtain ⟨w, hg, h1⟩ := h1
+        split at h1
+        · simp only [pure_ok] at h1; subst h1; exact ⟨chainSame_refl _, rfl⟩
+        · next fc hfc =>
+          split at h1
+          · simp only [bind_ok, pure_ok] at h1
+            obtain ⟨r0, h0, w', _, h1⟩ := h1
+            subst h1
+            refine focusLost_chainSame hwf _ fc r0 h0 (fun z hz hoz => hon ?_)
+            obtain ⟨cw, hcw, hcp, _⟩ := wf_focused hwf (get_ok.mp hg) hfc
+            exact onChain_up hwf (anc_snoc (fcChain_anc hwf hz) hcw hcp) hoz
+          · simp only [pure_ok] at h1; subst h1; exact ⟨chainSame_refl _, rfl⟩
+      have c2 : ChainSame t r2.1 ∧ r2.1.root = t.root := by
+        simp only [gainSelfOut, bind_ok] at h2
+        obtain ⟨w, hg, h2⟩ := h2
+        split at h2
+        · simp only [pure_ok] at h2; subst h2
+          exact ⟨chainSame_set_off hwf c1.1 hon (get_ok.mp hg) (by exact (get_ok.mp hg).2), c1.2⟩
+        · simp only [pure_ok] at h2; subst h2; exact c1
+      have c3 : (r3.1.root.needsRestore = true ∧ r3.1.root.needsLater = true) ∨ (ChainSame t r3.1 ∧ r3.1.root = t.root) := by
+        simp only [gainClimb, bind_ok] at h3
+        obtain ⟨w, hg, h3⟩ := h3
+        split at h3
+        · split at h3
+          · rcases ih _ _ _ _ h3 hwf2 with hreq | ⟨hcs, hroot⟩
+            · exact .inl hreq
+            · exact .inr ⟨chainSame_trans c2.1 hcs, hroot.trans c2.2⟩
+          · simp only [pure_ok] at h3; subst h3; exact .inr c2
+        · simp only [bind_ok, pure_ok] at h3
+          obtain ⟨t', ht', h3⟩ := h3
+          subst h3
+          unfold requestRestoreOf at ht'
+          simp only [bind_ok, pure_ok] at ht'
+          obtain ⟨_, _, ht'⟩ := ht'
+          subst ht'
+          exact .inl ⟨rfl, rfl⟩
+      have hroot4 := (gainSelfIn_pv h4).1
+      rcases c3 with hreq | ⟨hcs, hroot⟩
+      · exact .inl (by rw [hroot4]; exact hreq)
+      · right
+        refine ⟨?_, hroot4.trans hroot⟩
+        simp only [gainSelfIn, bind_ok] at h4
+        obtain ⟨w, hg, h4⟩ := h4
+        split at h4
+        · simp only [pure_ok] at h4; subst h4
+          exact chainSame_set_off hwf hcs hon (get_ok.mp hg) (by exact (get_ok.mp hg).2)
+        · simp only [pure_ok] at h4; subst h4
+          exact chainSame_set_off hwf hcs hon (get_ok.mp hg) (by exact (get_ok.mp hg).2)
+
+/-- `restore_requested` for `take_focus` in full: also below an invisible ancestor, where nothing is requested and
+    nothing the specification reads has changed. -/
+theorem takeFocus_requests {fx : Fixes} {t : Tree} {win : Nat} {r : Tree × List Event} (hwf : wfB t = true)
+    (h : takeFocus fx t win = .ok r) : Pending r.1 ∨ cursorSpec r.1 = cursorSpec t := by
+  rcases gained_requests_or_same fx _ t win none r h hwf with ⟨a, b⟩ | ⟨hcs, hroot⟩
+  · exact .inl ⟨.inl a, b⟩
+  · right
+    have hwf' := takeFocus_wf hwf h
+    have hview := focusGained_vww fx _ _ _ _ _ h
+    have hat : ∀ L C, ownerAt r.1 L C = ownerAt t L C :=
+      fun L C => WinFlush.ownerAt_congr_view (fun x => hview x) hcs.1 L C
+    have hce := chainSame_end hwf hcs
+    have hoe : OnChain t (chainEnd t (treeFuel t) 0) := onChain_chainEnd hwf _ 0 .root
+    obtain ⟨w, hw⟩ := onChain_live hwf hoe
+    obtain ⟨w', hw', _, hf', hc'⟩ := hcs.2 _ w hoe hw
+    apply cursorSpec_ext hwf hwf'
+    intro L C s
+    constructor
+    · rintro ⟨w2, hw2, hf, hcv, hs, hown⟩
+      rw [hce] at hw2 hown
+      have := live_unique hw2 hw'; subst this
+      rw [hat, hc'] at hown
+      exact ⟨w, hw, hf'.symm.trans hf, by rw [← hc']; exact hcv, by rw [← hc']; exact hs, hown⟩
+    · rintro ⟨w2, hw2, hf, hcv, hs, hown⟩
+      have := live_unique hw2 hw; subst this
+      refine ⟨w', by rw [hce]; exact hw', hf'.trans hf, by rw [hc']; exact hcv, by rw [hc']; exact hs, ?_⟩
+      rw [hce, hat, hc']; exact hown
+
 end WinFocus
 end Tickit
